@@ -17,7 +17,10 @@ RULE = ("Engine F: generated factories (RANDOM policies, conveyors whose stores 
         "a child interpreter with a different PYTHONHASHSEED, once in a child interpreter after a heap-perturbing "
         "pre-allocation (different id() values); the canonical trace (time, edge, put/get, item id) and the final node / "
         "edge statistics of all four must be identical. Within every run kernel time and ledger timestamps never "
-        "decrease. Non-trivial: the factory uses RANDOM or has >= 2 store operations on different edges in one instant.")
+        "decrease. Four of five cases are Engine-S store histories (queues of several waiters, withdrawals in the middle of a queue, "
+        "all store and edge classes) compared the same way through the harness log. "
+        "Non-trivial: the factory uses RANDOM or has >= 2 store operations on different edges in one instant; a history of >= 8 "
+        "operations with a cancellation.")
 RULE += (" Two in ten flow-shaped factories also contain rework loops (a machine feeding itself or a machine of an earlier layer through a "
          "Buffer / Fleet edge with a strictly positive delay / transit time, so no zero-time cycle exists); machine oracles work per visit, not per item. "
          "One in ten factories is a chain or a rows x cols mesh built by the helpers of factorysimpy.constructs (the harness hands them factories "
@@ -31,14 +34,41 @@ PROFILE = {"cycles": 2, "constructs": 1, "conveyors": True, "conveyor_to_sink": 
 
 
 def examples(tier):
-    return 1600 if tier == "quick" else 48000
+    return 6400 if tier == "quick" else 160000
+
+
+S_CLASSES = ["ReservablePriorityReqStore", "ReservableReqStore", "ReservablePriorityReqFilterStore", "BufferStore", "FleetStore",
+             "Buffer", "Fleet", "SlottedConveyor", "ContinuousConveyor", "SlottedBeltStore"]
+S_WEIGHTS = {"rp": 8, "rg": 7, "put": 7, "get": 5, "cp": 3, "cg": 3, "settle": 1, "adv": 4, "peek": 1}
 
 
 def strategy(tier):
-    return gen_factory.factories(PROFILE)
+    from hypothesis import strategies as st
+    from .. import gen_store
+    f = gen_factory.factories(PROFILE)
+    # store histories are cheap: four of five cases (queues of several waiters, withdrawals in the middle of a queue)
+    h = gen_store.case(S_CLASSES, S_WEIGHTS, max_ops=40, macros=4, extra=7)
+    return st.one_of(f, h, h, h, h)
 
 
-shrink_candidates = gen_factory.shrink_candidates
+def shrink_candidates(case):
+    if "ops" in case:
+        from .. import gen_store
+        yield from gen_store.shrink_candidates(case)
+    else:
+        yield from gen_factory.shrink_candidates(case)
+
+
+def store_trace(case):
+    """canonical trace of one store history: the harness log (operation, outcome, contents, live tokens after every operation),
+    memory addresses removed"""
+    import re
+    from ..harness_store import StoreRun
+    res = Result()
+    h = StoreRun(case, res, [])
+    h.run()
+    tr = [re.sub(r"0x[0-9a-fA-F]+", "0x", l) for l in res.info.get("trace", [])]
+    return tr, res.aborted, h.env.now
 
 
 class MonoOracle(FOracle):
@@ -96,6 +126,8 @@ def execute(spec):
 
 
 def digest_of(spec):
+    if "ops" in spec:
+        return hashlib.sha1(json.dumps(store_trace(spec)[:2], sort_keys=True).encode()).hexdigest()
     f, trace, stats, crash, regress = execute(spec)
     return hashlib.sha1(json.dumps([trace, stats, crash], sort_keys=True).encode()).hexdigest()
 
@@ -117,6 +149,25 @@ def first_diff(spec_a_run, spec_b_run):
 
 
 def run_case(case):
+    if "ops" in case:
+        res = Result()
+        keep = []
+        a = store_trace(case)
+        keep.append([bytearray(33 + 7 * i) for i in range(257)])       # shift the heap between the executions
+        b = store_trace(case)
+        keep.append([{"k%d" % i: i} for i in range(131)])
+        c = store_trace(case)
+        for other in (b, c):
+            if other[:2] != a[:2]:
+                i = next((j for j, (x, y) in enumerate(zip(a[0], other[0])) if x != y), min(len(a[0]), len(other[0])))
+                res.violate(("same_process", case["subject"]["cls"]),
+                            "two executions of one store history in one interpreter differ at log entry %d: %s vs %s" % (
+                                i, a[0][i] if i < len(a[0]) else a[1], other[0][i] if i < len(other[0]) else other[1]))
+                break
+        res.nontrivial = sum(1 for o in case["ops"] if o[0] in ("cp", "cg")) >= 1 and len(case["ops"]) >= 8
+        res.info["digest"] = hashlib.sha1(json.dumps(a[:2], sort_keys=True).encode()).hexdigest()
+        res.classes = ["history:" + case["subject"]["cls"]]
+        return res
     res = Result()
     a = execute(case)
     b = execute(case)
